@@ -48,6 +48,15 @@ theorem loop_else_and_nested_decorators_rejected :
 theorem value_statements_recorded : ∀ k ∈ valueStatements, recordedOK records k = true := by
   decide +kernel
 
+/-- No stage — builder, checker or **compiler** (compiler/expr_compiler.py, where desugared generators are lowered) —
+    consumes a list-typed field only through single elements: every (stage, kind, field) that is read has a whole-list read.
+    Table `decide`. -/
+theorem list_fields_consumed_whole : ∀ r ∈ listReads, listReadOK listReads r = true := by
+  decide +kernel
+
+example : listReadOK [(.compiler, .comprehension, .f_ifs, .index), (.compiler, .comprehension, .f_ifs, .test)]
+    (.compiler, .comprehension, .f_ifs, .index) = false := by decide +kernel
+
 /-! Non-vacuity / sensitivity: the check distinguishes tables.  Dropping the guard rows of the D2 fix
     (the tree before the fix) or the keyword guard of `ExprSynthesizer.visit_Call` makes `Covered`
     false for exactly those fields; and the dispositions are not all the same. -/
